@@ -18,6 +18,7 @@ FW_SETS = [
 ]
 INTERESTING = ("want.deliver", "wait.timeout", "want.cancel", "dec.handoff", "do.retry", "clean.sweep", "bg.dial.ok",
                "x.eof", "x.timeout", "do.ctxdone", "dial.fail")
+# (the real-time cases contain do.retry, x.eof and x.timeout)
 
 
 def gen_case(rng, cid, quick):
@@ -39,6 +40,25 @@ def gen_case(rng, cid, quick):
 MINIMAL_CTX = {"id": 0, "seed": 1, "n": 1, "m": 1, "maxConns": 1, "wait": False, "waitMs": 0, "readMs": 50,
                "cleaner": False, "closeIdle": False, "yield": 0, "fw": {"ok": 100}, "pDialErr": 0, "pPost": 0,
                "pCtxPre": 100, "pCtxPost": 0, "pReqTmo": 0, "sched": []}
+
+
+def timed_case(cid, T, d, slack, second):
+    """Real-time case for the clause "a call given a request timeout returns no later than that timeout plus slack
+    however the peer stalls": request 1 leaves a connection in the pool; request 2 (GET, DoTimeout T) reuses it, the
+    peer reads the request, stays silent for d < T and closes before the first byte (bad pooled connection =>
+    transparent retry); the redialled connection stalls (`second`) past the timeout.  The budget counts from the START
+    of the call: a correct client returns at ~T, one that restarts the clock per attempt at ~T + d; slack << d."""
+    call = lambda exch, qt: {"post": False, "ctxPre": False, "ctxPostAt": 0, "exch": exch, "dial": [], "qtMs": qt}
+    return {"id": cid, "seed": 1, "n": 1, "m": 2, "maxConns": 1, "wait": False, "waitMs": 0, "readMs": 0,
+            "cleaner": False, "closeIdle": False, "yield": 0, "fw": {"ok": 100}, "pDialErr": 0, "pPost": 0, "pCtxPre": 0,
+            "pCtxPost": 0, "pReqTmo": 0, "sched": [],
+            "calls": {"1": [call(["ok"], 0), call(["late0+eof0", second], T)]}, "bgDial": [],
+            "realTime": True, "lateMs": d, "slackMs": slack}
+
+
+TIMED_QUICK = [(2000, 1400, 800, "stall0"), (1600, 1100, 600, "stallhdr"), (2000, 1200, 700, "stallbody")]
+TIMED_THOROUGH = TIMED_QUICK + [(1200, 900, 500, "stall0"), (2400, 1200, 800, "stall0"), (1800, 1300, 700, "stallhdr"),
+                                (3000, 2000, 1000, "stallbody"), (1500, 1000, 600, "stall0")]
 
 
 def run_cases(ctx, drv, cases, outdir, par, repeat=1, timeout=900):
@@ -166,11 +186,17 @@ def run(ctx):
     rng = random.Random(ctx.seed * 1000003 + (0 if q else 17))
     ncases = 800 if q else 20000
     cases = [dict(MINIMAL_CTX)] + [gen_case(rng, i + 1, q) for i in range(ncases)]
+    timed = [timed_case(900000 + i, *t) for i, t in enumerate(TIMED_QUICK if q else TIMED_THOROUGH)]
     if not q:
         cases += schedule_cases(ctx, len(cases))
 
     # 3. run on the real client
-    traces = run_cases(ctx, drv, cases, ctx.sub("traces"), par)
+    # the real-time cases (seconds each) run in their own driver processes next to the others
+    with concurrent.futures.ThreadPoolExecutor(max_workers=2) as ex:
+        ft = ex.submit(run_cases, ctx, drv, timed, ctx.sub("traces_timed"), min(len(timed), 4))
+        traces = run_cases(ctx, drv, cases, ctx.sub("traces"), par)
+        traces += ft.result()
+    cases = cases + timed
     per_ev, nrun, nontrivial = stats(traces)
     if nrun != len(cases):
         raise lib.Infra("driver ran %d cases of %d" % (nrun, len(cases)))
@@ -237,8 +263,10 @@ def run(ctx):
     ctx.assumptions += [
         "hook H2 (build tag verif) logs inside the critical sections of client.go; file order of the trace = order in which "
         "events were taken under the recorder's lock, which is consistent with connsLock / w.mu and with program order",
-        "the scripted in-memory connection (vnet) turns a read deadline into an immediate timeout: stalls cost no wall-clock, so "
-        "the timeout bound is only exercised against hangs (watchdog at 3 s), not against slow progress",
+        "in the seeded cases the scripted connection (vnet) turns a read deadline into an immediate timeout (stalls cost no "
+        "wall-clock; hangs are caught by a 3 s watchdog); the bound 'returns within the request timeout + slack, counted "
+        "from the start of the call' is exercised in wall-clock by the dedicated real-time cases only (late death of a "
+        "pooled connection, then a stalling redial; slack 500..1000 ms, injected extra delay 900..2000 ms)",
         "TLC and the CommunityModules Json reader are trusted; goroutine identity is taken from runtime.Stack",
         "write failures, TLS, proxies, streamed response bodies and custom retry functions are not exercised",
     ]
